@@ -562,7 +562,7 @@ int CollideMain(int argc, char** argv) {
     int nt = 0;
     // a broken tree can make the traversal loop forever: SIGALRM ends the process, the
     // orchestrator attributes it to this case (a hang on a valid leaf set) and resumes
-    alarm(kind.rfind("rand", 0) == 0 ? 300 : 30);
+    alarm(kind.rfind("rand", 0) == 0 ? 300 : 20);
     if (kind == "bvh3")
       nt = RunBvh3(cases[i], F);
     else if (kind == "rects")
